@@ -9,7 +9,10 @@
                         Signature.SetSignatureByData -> set_signature_by_data
      cbnt/signature_types.go  SignatureRSAPSS/RSAASA/ECDSA/SM2.Verify -> sig_verify,
                         NewSignatureData (algorithm detection, hash selection) -> new_signature_data
-     cbnt/key_signature.go    KeySignature.Verify -> ks_verify, SetSignature -> ks_set_signature
+     cbnt/signature.go  Signature.SetSignature -> sig_set_signature (a function of the structure as it
+                        was before the call)
+     cbnt/key_signature.go    KeySignature.Verify -> ks_verify, SetSignature / SetSignatureAuto -> ks_set_signature
+     cbnt/cbntkey/manifest.go        Manifest.SetSignature -> km_set_signature
      cbnt/cbntkey/manifest.go        ValidateBPMKey -> validate_bpm_key
      cbnt/cbntbootpolicy/manifest.go calculateOffsetFromPhysAddr, IBBDataRanges, ValidateIBB
      bg/key.go, bg/signature.go, bg/signature_types.go, bg/key_signature.go -> bg_pub_key,
@@ -451,12 +454,24 @@ Definition new_signature_data (sa ha : Z) (sk : privkey) (data : bytes) : outcom
     end
   else Err E_SIGNALG.
 
-(* cbnt KeySignature.SetSignature *)
+(* cbnt Signature.SetSignature on the structure [m] as it is before the call (it may hold an
+   earlier signature): Version and HashAlg are overwritten first, then the signer is given the
+   REQUESTED hash algorithm and SetSignatureByData records it (or the scheme's default) *)
+Definition sig_set_signature (m : sigrec) (sa ha : Z) (sk : privkey) (data : bytes) : outcome sigrec :=
+  do sd <- new_signature_data sa ha sk data;
+  set_signature_by_data (mkSig (s_scheme m) 16 (s_keysize m) ha (s_data m)) sd ha.
+
+(* cbnt KeySignature.SetSignature (SetSignatureAuto is sa = ha = 0); cbntbootpolicy's PMSE
+   element embeds a KeySignature and signs through this method *)
 Definition ks_set_signature (ks : keysig) (sa ha : Z) (sk : privkey) (data : bytes) : outcome keysig :=
   do k <- set_pub_key (public_of sk);
-  do sd <- new_signature_data sa ha sk data;
-  do sg <- set_signature_by_data (mkSig (s_scheme (ks_sig ks)) 16 (s_keysize (ks_sig ks)) ha (s_data (ks_sig ks))) sd ha;
+  do sg <- sig_set_signature (ks_sig ks) sa ha sk data;
   Ok (mkKS 16 k sg).
+
+(* cbntkey Manifest.SetSignature: the KeySignature and the new PubKeyHashAlg *)
+Definition km_set_signature (ks : keysig) (sa ha : Z) (sk : privkey) (data : bytes) : outcome (keysig * Z) :=
+  do ks' <- ks_set_signature ks sa ha sk data;
+  Ok (ks', s_hashalg (ks_sig ks')).
 
 (* cbntkey Manifest.ValidateBPMKey *)
 Fixpoint validate_bpm_key_loop (l : list kmhash) (k : key) (count : Z) : outcome unit :=
@@ -656,3 +671,10 @@ Definition token_cover (ks : keyset) (raw : bytes) : list (Z * Z) :=
     end
   | _ => [(0, zlen raw)]
   end.
+
+(* the hash a scheme uses when the caller passes a null hash algorithm *)
+Definition scheme_default_hash (sc : Z) : Z :=
+  if sc =? c16_alg_rsapss then c16_alg_sha384
+  else if sc =? c16_alg_rsassa then c16_alg_sha256
+  else if sc =? c16_alg_ecdsa then c16_alg_sha512
+  else c16_alg_sm3.
